@@ -12,6 +12,7 @@ package c16
 import (
 	"encoding/json"
 	"math/big"
+	"sync"
 	"testing"
 
 	"github.com/consensys/gnark-crypto/ecc/bls12-381/bandersnatch"
@@ -141,35 +142,162 @@ func fakeGLVCollision(cv *swCurve, s *big.Int) bool {
 	return false
 }
 
-// scalarMulScalars lists the scalars of the case that reach the single-point
-// variable-base routine (ScalarMul -> scalarMulGLVAndFakeGLV / scalarMulFakeGLV).
-func scalarMulScalars(c *SWCase) []*big.Int {
-	var r []*big.Int
-	v := func(i int) *big.Int { return c.Scalars[i].value() }
+// smCall is one invocation of the single-point variable-base routine
+// (ScalarMul -> scalarMulGLVAndFakeGLV / scalarMulFakeGLV) made by the case.
+type smCall struct {
+	P point
+	S *big.Int
+}
+
+// scalarMulCalls lists those invocations with their (native) operands.
+func scalarMulCalls(c *SWCase) []smCall {
+	cv := curves[c.Curve]
+	var r []smCall
+	v := func(i int) *big.Int { return new(big.Int).Mod(c.Scalars[i].value(), cv.R) }
+	pt := func(i int) point { return c.Points[i].point() }
 	switch c.Op {
 	case opMul:
-		r = append(r, v(0))
+		r = append(r, smCall{pt(0), v(0)})
 	case opMulBase:
 		if isGLVEmulated(c.Curve) {
-			r = append(r, v(0)) // ScalarMulBase = scalarMulGLVAndFakeGLV(G, s) on GLV curves
+			r = append(r, smCall{cv.G, v(0)}) // ScalarMulBase = scalarMulGLVAndFakeGLV(G, s) on GLV curves
 		}
 	case opFold:
-		r = append(r, v(0))
+		// res = [g]P[n-1]; for i = n-2..1: res = [g](P[i] + res)
+		n := len(c.Points)
+		if n == 0 {
+			return nil
+		}
+		g := v(0)
+		r = append(r, smCall{pt(n - 1), g})
+		res := cv.mul(pt(n-1), g)
+		for i := n - 2; i > 0; i-- {
+			res = cv.add(pt(i), res)
+			r = append(r, smCall{res, g})
+			res = cv.mul(res, g)
+		}
 	case opMSM:
 		n := len(c.Scalars)
 		if isFakeGLV(c.Curve) || c.Complete {
 			for i := 0; i < n; i++ { // jointScalarMul = two single scalar multiplications
-				r = append(r, v(i))
+				r = append(r, smCall{pt(i), v(i)})
 			}
 		} else if n%2 == 1 {
-			r = append(r, v(n-1))
+			r = append(r, smCall{pt(n - 1), v(n - 1)})
 		}
 	case opJoint:
 		if isFakeGLV(c.Curve) || c.Complete {
-			r = append(r, v(0), v(1))
+			r = append(r, smCall{pt(0), v(0)}, smCall{cv.G, v(1)})
 		}
 	}
 	return r
+}
+
+func scalarMulScalars(c *SWCase) []*big.Int {
+	var r []*big.Int
+	for _, k := range scalarMulCalls(c) {
+		r = append(r, k.S)
+	}
+	return r
+}
+
+// sw_emulated scalarMulGLVAndFakeGLV adds the generator to the accumulator (`Acc = c.Add(Acc, g)`) assuming
+// "Acc cannot be equal to G"; Acc = +-P +-Q +-phi(P) +-phi(Q) with Q = [s]P. For P in the small orbit of G
+// (ScalarMulBase: P = G) and s with tiny GLV sub-scalars Acc = +-G: the honest prover meets x-equal operands
+// in the incomplete Add, with and without complete arithmetic.
+const SigAccEqualsG = "glvfakeglv-accumulator-equals-generator"
+
+// scalarMulFakeGLV (P-256 / P-384) with complete arithmetic returned the raw hinted point when s = 0 or
+// Q = (0,0) (F49, fixed): kept as a regression probe.
+const SigFakeGLVCompleteBypass = "fakeglv-complete-selector-bypass"
+
+// accumulatorEqualsG is the shape of the finding: the accumulator of the joint double-and-add is
+// (small combination of P, Q=[s]P, phi(P), phi(Q)) + [2^t]G and the routine assumes it never meets a table
+// entry +-B_i (itself such a small combination). It does iff some combination with coefficients in -3..3
+// equals +-[2^t]G for a small t, which needs P in the small orbit of G and s with tiny sub-scalars.
+func accumulatorEqualsG(cv *swCurve, P point, s *big.Int) bool {
+	if cv.Lambda == nil || P.isInf() || new(big.Int).Mod(s, cv.R).Sign() == 0 {
+		return false
+	}
+	Q := cv.mul(P, s)
+	if Q.isInf() {
+		return false
+	}
+	const T = 12
+	target := map[string]bool{}
+	g := cv.G
+	for t := 0; t <= T; t++ {
+		target[g.X.String()] = true
+		g = cv.add(g, g)
+	}
+	terms := []point{P, Q, cv.mul(P, cv.Lambda), cv.mul(Q, cv.Lambda)}
+	// multiples -3..3 of every term
+	var mult [4][7]point
+	for i, t := range terms {
+		for c := -3; c <= 3; c++ {
+			mult[i][c+3] = cv.mul(t, big.NewInt(int64(c)))
+		}
+	}
+	for c0 := 0; c0 <= 3; c0++ { // overall sign is irrelevant for the abscissa
+		a0 := mult[0][c0+3]
+		for c1 := -3; c1 <= 3; c1++ {
+			a1 := cv.add(a0, mult[1][c1+3])
+			for c2 := -3; c2 <= 3; c2++ {
+				a2 := cv.add(a1, mult[2][c2+3])
+				for c3 := -3; c3 <= 3; c3++ {
+					a3 := cv.add(a2, mult[3][c3+3])
+					if !a3.isInf() && target[a3.X.String()] {
+						return true
+					}
+				}
+			}
+		}
+	}
+	return false
+}
+
+// sw_emulated scalarMulBaseGeneric (ScalarMulBase on the curves without endomorphism) evaluates the incomplete
+// `add(res, [2^i]g)` for every bit position before selecting on the bit, and the final `Add(res, -g)` likewise:
+// unsatisfiable when a partial sum equals +-[2^i]g (s = n-1, n-2^(b-1), n-2^(b-1)-1; with and without complete
+// arithmetic) or when res = g at the end without complete arithmetic (s = 1).
+const SigBaseGeneric = "scalarmulbase-generic-incomplete-add-collision"
+
+var (
+	gmMu    sync.Mutex
+	gmCache = map[string][]point{}
+)
+
+// baseGenericCollision replays the fixed-base double-and-add on the reference arithmetic (exact shape).
+func baseGenericCollision(cv *swCurve, s *big.Int, complete bool) bool {
+	if s.Cmp(cv.R) == 0 && baseGenericCollisionBits(cv, s, complete) {
+		return true // emulated.ValueOf keeps the modulus itself unreduced: its own bits are decomposed
+	}
+	return baseGenericCollisionBits(cv, new(big.Int).Mod(s, cv.R), complete)
+}
+
+func baseGenericCollisionBits(cv *swCurve, k *big.Int, complete bool) bool {
+	n := cv.R.BitLen()
+	gmMu.Lock()
+	gm, ok := gmCache[cv.Name]
+	if !ok {
+		gm = make([]point, n)
+		gm[0] = cv.G
+		for i := 1; i < n; i++ {
+			gm[i] = cv.add(gm[i-1], gm[i-1])
+		}
+		gmCache[cv.Name] = gm
+	}
+	gmMu.Unlock()
+	res := cv.mul(cv.G, big.NewInt(int64(1+2*k.Bit(1)+4*k.Bit(2))))
+	for i := 3; i < n; i++ {
+		if res.isInf() || res.X.Cmp(gm[i].X) == 0 {
+			return true
+		}
+		if k.Bit(i) == 1 {
+			res = cv.add(res, gm[i])
+		}
+	}
+	return res.isInf() || (!complete && res.X.Cmp(cv.G.X) == 0)
 }
 
 // oppositeYDistinctX reports whether two operands of an AddUnified call (the
@@ -200,6 +328,24 @@ func oppositeYDistinctX(c *SWCase) bool {
 			acc = cv.add(acc, t)
 			terms = append(terms, acc)
 		}
+	case opFold:
+		// res = [g]P[n-1]; for i = n-2..0: res = addFn(P[i], res) (AddUnified with complete arithmetic); res = [g]res
+		if !c.Complete || len(c.Points) < 2 {
+			return false
+		}
+		g := c.Scalars[0].value()
+		res := cv.mul(c.Points[len(c.Points)-1].point(), g)
+		for i := len(c.Points) - 2; i >= 0; i-- {
+			p := c.Points[i].point()
+			if !p.isInf() && !res.isInf() && p.X.Cmp(res.X) != 0 && new(big.Int).Mod(new(big.Int).Add(p.Y, res.Y), cv.P).Sign() == 0 {
+				return true
+			}
+			res = cv.add(p, res)
+			if i > 0 {
+				res = cv.mul(res, g)
+			}
+		}
+		return false
 	default:
 		return false
 	}
@@ -248,6 +394,16 @@ func excludedSW(c *SWCase) string {
 			}
 		}
 	}
+	if _, ok := open(SigAccEqualsG); ok && isGLVEmulated(c.Curve) {
+		for _, k := range scalarMulCalls(c) {
+			if accumulatorEqualsG(cv, k.P, k.S) {
+				return SigAccEqualsG
+			}
+		}
+	}
+	if _, ok := open(SigBaseGeneric); ok && isFakeGLV(c.Curve) && c.Op == opMulBase && baseGenericCollision(cv, c.Scalars[0].value(), c.Complete) {
+		return SigBaseGeneric
+	}
 	return ""
 }
 
@@ -272,11 +428,22 @@ func excludedAdv(c *AdvCase) string {
 			return SigCompleteBypass
 		}
 	}
+	// F49 (fixed in 5fdc533): the same flaw in the sibling routine scalarMulFakeGLV (P-256 / P-384, s = 0 or
+	// P = (0,0) with complete arithmetic). Only an *open* entry would exclude the shape; the cases are asserted.
+	if _, ok := open(SigFakeGLVCompleteBypass); ok && isFakeGLV(c.Curve) && c.Op == opMul && c.Complete && c.Strategy != "baseline" && (s.Sign() == 0 || base.isInf()) {
+		return SigFakeGLVCompleteBypass
+	}
 	if _, ok := open(SigScalarOne); ok && glv && !c.Complete && pm1(cv, s) {
 		return SigScalarOne
 	}
 	if _, ok := open(SigFakeGLVScalarOne); ok && isFakeGLV(c.Curve) && c.Op == opMul && fakeGLVCollision(cv, s) {
 		return SigFakeGLVScalarOne
+	}
+	if _, ok := open(SigAccEqualsG); ok && glv && c.Strategy == "baseline" && accumulatorEqualsG(cv, base, s) {
+		return SigAccEqualsG
+	}
+	if _, ok := open(SigBaseGeneric); ok && isFakeGLV(c.Curve) && c.Op == opMulBase && c.Strategy == "baseline" && baseGenericCollision(cv, s, c.Complete) {
+		return SigBaseGeneric
 	}
 	return ""
 }
@@ -307,6 +474,21 @@ func probes() []probe {
 	// F25: complete arithmetic, hinted result with the abscissa of P; and s = 0 with an arbitrary hinted point
 	adv(SigCompleteBypass, AdvCase{Curve: "secp256k1", Op: opMulBase, Complete: true, S: "b48d193d1372000519690491426c2202cc00020003172aeeeb3960f0a014c2", Claim: "negP", Strategy: "point-only"})
 	adv(SigCompleteBypass, AdvCase{Curve: "bn254", Op: opMul, Complete: true, P: bn.derive("probe").pt(), S: "0", Claim: "G", Strategy: "point-only"})
+	// F49 regression (scalarMulFakeGLV, complete arithmetic): P = (0,0) resp. s = 0, hinted point replaced / sub-scalars swapped
+	adv(SigFakeGLVCompleteBypass, AdvCase{Curve: "p256", Op: opMul, Complete: true, P: inf().pt(), S: "ea901acc9014c055303ab160202905a3f19bbfc1a9602160dfb5d3c01076bff", Claim: "rand", Strategy: "point-only"})
+	adv(SigFakeGLVCompleteBypass, AdvCase{Curve: "p256", Op: opMul, Complete: true, P: curves["p256"].derive("probe").pt(), S: "0", Claim: "G", Strategy: "swap-subscalars", K: 1})
+	adv(SigFakeGLVCompleteBypass, AdvCase{Curve: "p384", Op: opMul, Complete: true, P: curves["p384"].derive("probe").pt(), S: "0", Claim: "rand", Strategy: "decomp-of-claim", K: 3})
+	// accumulator = +-G: ScalarMulBase(lambda+1) on secp256k1 (default options) and BN254 (complete arithmetic, as in ECMul)
+	for _, cu := range []struct {
+		name     string
+		complete bool
+	}{{"secp256k1", false}, {"bn254", true}} {
+		cv := curves[cu.name]
+		sw(SigAccEqualsG, SWCase{Curve: cu.name, Op: opMulBase, Complete: cu.complete, Scalars: []Sc{val(new(big.Int).Add(cv.Lambda, big.NewInt(1)))}})
+	}
+	// fixed-base generic routine: s = n-1 with complete arithmetic, s = 1 with default options (P-256)
+	sw(SigBaseGeneric, SWCase{Curve: "p256", Op: opMulBase, Complete: true, Scalars: []Sc{val(new(big.Int).Sub(curves["p256"].R, big.NewInt(1)))}})
+	sw(SigBaseGeneric, SWCase{Curve: "p256", Op: opMulBase, Scalars: []Sc{val(big.NewInt(1))}})
 	// F26: Q = -phi(G) + G
 	endo := secp.neg(secp.mul(secp.G, secp.Lambda))
 	sw(SigAddUnifiedOppY, SWCase{Curve: "secp256k1", Op: opAddU, Points: []Pt{endo.pt(), secp.G.pt()}})
